@@ -27,7 +27,7 @@ RULE = ("one run = one manager lifetime (real TCPServer.run + socketserver loop 
         "followed by a well-formed probe on a new connection; non-trivial = at least one hostile line "
         "was parsed as JSON and dispatched; distinct = tuple (mode, sorted kinds of lines in the history, "
         "client behaviours used)")
-TIERS = {"quick": {"runs": 4000, "wall": 150}, "thorough": {"runs": 400000, "wall": 2400}}
+TIERS = {"quick": {"runs": 8000, "wall": 240}, "thorough": {"runs": 300000, "wall": 3000}}
 MUTANT_RUNS = 6000
 MUTANT_WALL = 150
 WORKERS = 24      # latency-bound (thread hand-offs), not CPU-bound
@@ -102,7 +102,7 @@ def gen_line(ch, cfg, v1):
                         b'{"command":["x"],"version":5}', b'{"command":["version"]}',
                         b'\xef\xbb\xbf{"command":"version"}', b"  \t ", b"{",
                         b'{"command":"version","version":1e400}'], "jsonshape"), k
-    cmd = ch.pick(cmds, "cmd")
+    cmd = ch.pick(cmds + (["sign"] * 4 + ["advanceBlockchain"] if not v1 else []), "cmd")
     doc = c02.base_request(ch, cmd, v1)
     if k == "mutated-request":
         for _ in range(1 + ch.draw(3, "nmut")):
@@ -152,6 +152,17 @@ def gen_line(ch, cfg, v1):
         bad = ch.pick(["aabbcc", "c0", "c3010203", "83616263", "f8", "00", rsk.rlp_list(
             [b"\x01"] * 19)[0].hex(), rsk.rlp_list([b"\x01"] * 21)[0].hex(),
             rsk.rlp_list([b"\x01"] * 16)[0].hex(), "zz", good + "00", good[:-4]], "badblock")
+        if ch.draw(3, "badblock.nested") == 1:
+            # well-formed RLP, hostile shape: a header field that is itself a (deeply nested) list
+            h = rsk.gen_header(ch, nfields=ch.pick([19, 20], "nested.nf"), max_cb=100)
+            enc = [rsk.rlp_bytes(f) for f in h["fields"]]
+            depth = ch.pick([1, 2, 300, 600, 990, 2000], "nested.depth")
+            nested = b"\xc0"
+            for _ in range(depth - 1):
+                nested = rsk.rlp_list_of_encoded([nested])[0]
+            which = ch.pick([len(enc) - 1, 0, 6, len(enc) - 3, len(enc) - 2], "nested.field")
+            enc[which] = nested
+            bad = rsk.rlp_list_of_encoded(enc)[0].hex()
         place = ch.draw(4, "badblock.place")
         if place == 0:
             doc = {"command": "advanceBlockchain", "blocks": [bad], "brothers": [[]], "version": 5}
